@@ -127,6 +127,8 @@ fn read_entry(
     let mut all_offsets = vec![header_data.name_offset];
     all_offsets.extend(header_data.thtx_offset.map(NonZeroU64::get));
     all_offsets.extend(header_data.secondary_name_offset.map(NonZeroU64::get));
+    // (an entry without a THTX section may end with a script; the next entry begins where that script ends)
+    all_offsets.extend(NonZeroU64::new(header_data.next_offset).map(NonZeroU64::get));
     all_offsets.extend(sprite_offsets.iter().map(|&offset| offset as u64));
     all_offsets.extend(script_ids_and_offsets.iter().map(|&(_, offset)| offset as u64));
 
